@@ -60,6 +60,24 @@ func (k Keeper) ClaimRewards(ctx context.Context, sender sdk.AccAddress, validat
 		return nil, err
 	}
 
+	// Checkpoint the sender at the current multipliers: everything accrued so far has just been paid.
+	// Every denom of the validator is checkpointed, not only the ones the reward saver currently holds,
+	// otherwise a denom whose saver balance is momentarily zero would later be paid from multiplier zero.
+	err = k.RewardMultiplier.Walk(
+		ctx,
+		collections.NewPrefixedPairRange[[]byte, string]([]byte(validatorAddr)),
+		func(key collections.Pair[[]byte, string], value string) (bool, error) {
+			multiplier, err := math.NewDecFromString(value)
+			if err != nil {
+				return true, err
+			}
+			return false, k.SetUserLastRewardMultiplier(ctx, sender, validatorAddr, key.K2(), multiplier)
+		},
+	)
+	if err != nil {
+		return nil, err
+	}
+
 	return total, nil
 }
 
